@@ -60,14 +60,32 @@ structure AuthKey where
 
 def isSpace (c : Char) : Bool := c = ' ' || c = '\t' || c = '\n' || c = '\r' || c.toNat = 0x0b || c.toNat = 0x0c
 
-/-- `strings.Fields` (ASCII white space) -/
-def fieldsAux : Str → Str → List Str
-  | cur, [] => if cur = [] then [] else [cur.reverse]
-  | cur, c :: r =>
-    if isSpace c then (if cur = [] then fieldsAux [] r else cur.reverse :: fieldsAux [] r)
-    else fieldsAux (c :: cur) r
+/-- number of bytes of the white-space character (unicode.IsSpace, UTF-8 encoded) at the head of the byte string, 0 if the
+    head is not white space: ASCII space/TAB/LF/VT/FF/CR; U+0085, U+00A0 (C2 85 / C2 A0); U+1680 (E1 9A 80);
+    U+2000–U+200A, U+2028, U+2029, U+202F (E2 80 80–8A / A8 / A9 / AF); U+205F (E2 81 9F); U+3000 (E3 80 80) -/
+def spaceLen : Str → Nat
+  | [] => 0
+  | c :: r =>
+    if isSpace c then 1
+    else match c.toNat, r with
+      | 0xC2, d :: _ => if d.toNat = 0x85 || d.toNat = 0xA0 then 2 else 0
+      | 0xE1, d :: e :: _ => if d.toNat = 0x9A && e.toNat = 0x80 then 3 else 0
+      | 0xE2, d :: e :: _ =>
+        if d.toNat = 0x80 && ((0x80 ≤ e.toNat && e.toNat ≤ 0x8A) || e.toNat = 0xA8 || e.toNat = 0xA9 || e.toNat = 0xAF) then 3
+        else if d.toNat = 0x81 && e.toNat = 0x9F then 3 else 0
+      | 0xE3, d :: e :: _ => if d.toNat = 0x80 && e.toNat = 0x80 then 3 else 0
+      | _, _ => 0
 
-def fields (s : Str) : List Str := fieldsAux [] s
+/-- `strings.Fields`: split around runs of white space. `skip` = bytes of a multi-byte space still to drop. -/
+def fieldsAux : Nat → Str → Str → List Str
+  | _, cur, [] => if cur = [] then [] else [cur.reverse]
+  | skip + 1, cur, _ :: r => fieldsAux skip cur r
+  | 0, cur, c :: r =>
+    match spaceLen (c :: r) with
+    | 0 => fieldsAux 0 (c :: cur) r
+    | n + 1 => if cur = [] then fieldsAux n [] r else cur.reverse :: fieldsAux n [] r
+
+def fields (s : Str) : List Str := fieldsAux 0 [] s
 
 /-- the bearer credential of an `Authorization` header value, `[]` when missing/malformed -/
 def authenticationCredential (hdr : Str) : Str :=
